@@ -19,7 +19,7 @@ func init() {
 	register(&CheckDef{
 		ID:    "C13",
 		Level: "exploration",
-		Rule: "seeded histories on a real primary P, a real replica R that takes P's halt lock through the <db>-lock file (real fuse lock node, real HTTP client and /halt, /tx handlers over the simulated network) and a second real replica R2, in rollback and WAL mode. Steps are drawn from: acquire, forwarded transactions on R (every PagerSim shape), local transactions and checkpoints attempted on P, release, expiry of the TTL without release (with R partitioned away or silent), a repeated POST /halt with the same id, POST /tx without a lock / with a wrong id / after release or expiry, lost acquire and release replies, and a change of primary while the lock is held. Oracles: at grant R's position equals the lock's position equals P's position; while the lock is held every local transaction on P is refused and P's position, raw image, WAL size and ltx listing change only through forwarded files; when a forwarded commit returns success on R, P already reports the same TXID and checksum and holds the same image, and R2 reaches it; a failed forwarded commit changes neither node; a repeated acquire returns the same lock; /tx from anybody but the current holder is refused and changes nothing; after release or expiry P commits again and the former holder's writes are refused. evaluations = steps; distinct = distinct (mode, step kind, lock state, outcome) tuples; non-trivial = run with >= 1 forwarded commit checked on P",
+		Rule:  "seeded histories on a real primary P, a real replica R that takes P's halt lock through the <db>-lock file (real fuse lock node, real HTTP client and /halt, /tx handlers over the simulated network) and a second real replica R2, in rollback and WAL mode. Steps are drawn from: acquire, forwarded transactions on R (every PagerSim shape), local transactions and checkpoints attempted on P, release, expiry of the TTL without release (with R partitioned away or silent), a repeated POST /halt with the same id, POST /tx without a lock / with a wrong id / after release or expiry, lost acquire and release replies, and a change of primary while the lock is held. Oracles: at grant R's position equals the lock's position equals P's position; while the lock is held every local transaction on P is refused and P's position, raw image, WAL size and ltx listing change only through forwarded files; when a forwarded commit returns success on R, P already reports the same TXID and checksum and holds the same image, and R2 reaches it; a failed forwarded commit changes neither node; a repeated acquire returns the same lock; /tx from anybody but the current holder is refused and changes nothing; after release or expiry P commits again and the former holder's writes are refused. evaluations = steps; distinct = distinct (mode, step kind, lock state, outcome) tuples; non-trivial = run with >= 1 forwarded commit checked on P",
 		Run:   runC13,
 		NonTrivial: func(r *Run) bool {
 			return r.Stats["c13.forwarded.checked"] > 0
